@@ -178,6 +178,9 @@ def _run(pid, cfg, tier, seed, work, t0, replay):
     env["VERIF_TIER"] = tier
     env["VERIF_KNOWN"] = ",".join(sorted(known))
     env["VERIF_SEED"] = str(seed)
+    if tier == "thorough" and cfg.get("thorough_scale"):
+        # multiplies the case counts of the rapid properties (ev.Check)
+        env["VERIF_SCALE"] = str(cfg["thorough_scale"])
 
     if replay:
         return do_replay(pid, cfg, binary, env, work, replay)
